@@ -222,7 +222,23 @@ def struct_error():
 def pack_model(interp, st, fmt, args):
     """struct pack of one integer: yields (st, V | Raise)"""
     interp.builtins_used.add(f"struct.pack({fmt!r})")
-    if fmt not in FMT or len(args) != 1:
+    if fmt not in FMT:
+        parts = _split_fmt(fmt)
+        if parts is None or len(parts) != len(args):
+            raise Unsupported(f"struct format {fmt!r}")
+
+        def go(i, st2, acc):
+            if i == len(parts):
+                yield st2, from_segs(acc)
+                return
+            for s3, v in pack_model(interp, st2, parts[i], [args[i]]):
+                if isinstance(v, Raise):
+                    yield s3, v
+                else:
+                    yield from go(i + 1, s3, acc + segs_of(v))
+        yield from go(0, st, [])
+        return
+    if len(args) != 1:
         raise Unsupported(f"struct format {fmt!r}")
     size, signed, order = FMT[fmt]
     v = args[0]
@@ -244,10 +260,55 @@ def pack_model(interp, st, fmt, args):
     yield from interp.alts(st, [(ok, VSegs([('packed', fmt, size, t)])), (z3.Not(ok), struct_error())])
 
 
+def _split_fmt(fmt):
+    """'<III' -> ['<I', '<I', '<I'] for formats made of repeated single integer codes (no padding with < > = !)"""
+    if fmt and fmt[0] in '<>!=':
+        order, codes = ('>' if fmt[0] in '>!' else '<'), fmt[1:]
+    else:
+        return None
+    out = []
+    num = ''
+    for c in codes:
+        if c.isdigit():
+            num += c
+            continue
+        if order + c not in FMT:
+            return None
+        out += [order + c] * (int(num) if num else 1)
+        num = ''
+    return out if not num else None
+
+
 def unpack_model(interp, st, fmt, data):
     interp.builtins_used.add(f"struct.unpack({fmt!r})")
     if fmt not in FMT:
-        raise Unsupported(f"struct format {fmt!r}")
+        parts = _split_fmt(fmt)
+        if parts is None or len(parts) < 2:
+            raise Unsupported(f"struct format {fmt!r}")
+        flat = to_vbytes(data) if not isinstance(data, VBytes) else data
+        total = sum(FMT[p][0] for p in parts)
+        n = seq_len(flat)
+        okc = (n == total) if isinstance(n, int) else (iterm(n) == total)
+        alts = [(True, 'ok')] if okc is True or (okc is not False and st.entails(okc)) else \
+            ([(okc, 'ok'), (z3.Not(okc), 'bad')] if okc is not False else [(True, 'bad')])
+        for s1, r in interp.alts(st, alts):
+            if r == 'bad':
+                yield s1, struct_error()
+                continue
+
+            def go(i, st2, off, acc):
+                if i == len(parts):
+                    yield st2, VTuple(acc)
+                    return
+                sz = FMT[parts[i]][0]
+                piece = VBytes(flat.v[off:off + sz]) if flat.concrete else VBytes(z3.SubString(flat.term(), off, sz))
+                for s3, v in unpack_model(interp, st2, parts[i], piece):
+                    if isinstance(v, Raise):
+                        yield s3, v
+                    else:
+                        yield from go(i + 1, s3, off + sz, acc + [v.items[0]])
+            yield from go(0, s1, 0, [])
+        return
     size, signed, order = FMT[fmt]
     segs = segs_of(data)
     if segs is None:
@@ -362,7 +423,8 @@ def _lose_structure(c):
 def bytesio_method(interp, st, ref, c, name, args, kwargs, node=None):
     if interp.write_log is not None and name in ('write', 'writelines', 'read', 'seek', 'truncate', 'close'):
         interp.write_log.add(('heap', ref.addr, None))
-    if name == 'getvalue':
+    if name in ('getvalue', 'getbuffer'):
+        # getbuffer() is a memoryview of the same bytes: modelled as the bytes value (read-only uses)
         yield st, (from_segs(c.segs) if c.segs is not None else c.flat)
         return
     if name == 'tell':
@@ -479,7 +541,16 @@ def bytesio_method(interp, st, ref, c, name, args, kwargs, node=None):
             yield s1, r
         return
     if name == 'truncate':
-        raise Unsupported("BytesIO.truncate", node)
+        if args and args[0] is not VNone:
+            raise Unsupported("BytesIO.truncate(size)", node)
+        _lose_structure(c)
+        buf = c.flat
+        pos = c.num_pos
+        for s1, r in bm.getslice(interp, st, buf, VInt(0), VInt(pos) if isinstance(pos, int) else mk_int(pos), VNone, node):
+            if not isinstance(r, Raise):
+                s1.heap[ref.addr].flat = r
+            yield s1, (r if isinstance(r, Raise) else (VInt(pos) if isinstance(pos, int) else mk_int(pos)))
+        return
     if name in ('readable', 'writable', 'seekable'):
         yield st, VBool(True)
         return
